@@ -235,35 +235,47 @@ pub fn explore<Sc: Scenario>(scn: &Sc, b: &Bounds) -> Report {
     // terminal paths for sampling / replay (path idx)
     let mut leaf_paths: Vec<(usize, usize)> = vec![]; // (path, base)
 
-    for depth in 0..b.max_depth {
-        if frontier.is_empty() {
-            break;
-        }
-        let t_level = Instant::now();
-        // at least 8 nodes per worker: building a worker (genesis + base recipes) is not free
-        let nthreads = b.threads.max(1).min(frontier.len().div_ceil(8).max(1));
-        let chunk = frontier.len().div_ceil(nthreads);
-        type Out<S, A> = (
-            Vec<Succ<S, A>>,
-            BTreeMap<String, BTreeMap<String, u64>>,
-            Vec<(usize, usize, A, Vec<usize>, String)>,
-            Vec<Known>,
-            mcvm::store::Blocks,
-        );
-        let results: Vec<Out<Sc::S, Sc::A>> = std::thread::scope(|sc| {
-            let mut hs = vec![];
-            for (ci, nodes) in frontier.chunks(chunk).enumerate() {
-                let store = store.fork();
-                let stop = &stop;
-                let visited = &visited;
-                let transitions = &transitions;
-                let fault_transitions = &fault_transitions;
-                let agreed = &agreed;
-                let h = std::thread::Builder::new()
-                    .stack_size(1 << 30)
-                    .spawn_scoped(sc, move || {
-                        let w = scn.worker(&store);
-                        store.keep();
+    type Out<S, A> = (
+        Vec<Succ<S, A>>,
+        BTreeMap<String, BTreeMap<String, u64>>,
+        Vec<(usize, usize, A, Vec<usize>, String)>,
+        Vec<Known>,
+        mcvm::store::Blocks,
+    );
+    struct Job<S> {
+        frontier: std::sync::Arc<Vec<Node<S>>>,
+        lo: usize,
+        hi: usize,
+    }
+    let visited = std::sync::RwLock::new(visited);
+    let pool_size = b.threads.max(1);
+    std::thread::scope(|sc| {
+    // persistent worker pool: each thread builds its worker (genesis + base recipes) once
+    let (res_tx, res_rx) = std::sync::mpsc::channel::<(usize, Result<Out<Sc::S, Sc::A>, String>)>();
+    let mut job_txs: Vec<std::sync::mpsc::Sender<Job<Sc::S>>> = vec![];
+    for t in 0..pool_size {
+        let (tx, rx) = std::sync::mpsc::channel::<Job<Sc::S>>();
+        job_txs.push(tx);
+        let res_tx = res_tx.clone();
+        let store = store.fork();
+        let stop = &stop;
+        let visited = &visited;
+        let transitions = &transitions;
+        let fault_transitions = &fault_transitions;
+        let agreed = &agreed;
+        std::thread::Builder::new()
+            .stack_size(1 << 30)
+            .spawn_scoped(sc, move || {
+                let mut wopt: Option<Sc::W> = None;
+                while let Ok(job) = rx.recv() {
+                    let r = std::panic::catch_unwind(std::panic::AssertUnwindSafe(|| {
+                        if wopt.is_none() {
+                            wopt = Some(scn.worker(&store));
+                            store.keep();
+                        }
+                        let w = wopt.as_ref().unwrap();
+                        let visited = visited.read().unwrap();
+                        let nodes = &job.frontier[job.lo..job.hi];
                         let mut succs = vec![];
                         let mut local_seen: std::collections::HashSet<Key> = Default::default();
                         let mut outcomes: BTreeMap<String, BTreeMap<String, u64>> = BTreeMap::new();
@@ -277,10 +289,10 @@ pub fn explore<Sc: Scenario>(scn: &Sc, b: &Bounds) -> Report {
                                 stop.store(true, Ordering::Relaxed);
                                 break;
                             }
-                            let node_idx = ci * chunk + ni;
-                            let acts = scn.actions(&w, &node.s);
+                            let node_idx = job.lo + ni;
+                            let acts = scn.actions(w, &node.s);
                             for (ai, a) in acts.iter().enumerate() {
-                                let st = scn.step(&w, &node.s, a, &[]);
+                                let st = scn.step(w, &node.s, a, &[]);
                                 let sites = st.sites.clone();
                                 let mut handle_inner = |st: Step<Sc::S>, faults: Vec<usize>| -> bool {
                                     let Some(next) = st.next else { return false };
@@ -319,20 +331,58 @@ pub fn explore<Sc: Scenario>(scn: &Sc, b: &Bounds) -> Report {
                                 handle(st, vec![]);
                                 if b.max_faults > 0 && !sites.is_empty() {
                                     for plan in subsets(&sites, b.max_faults) {
-                                        let st = scn.step(&w, &node.s, a, &plan);
+                                        let st = scn.step(w, &node.s, a, &plan);
                                         handle(st, plan);
                                     }
                                 }
                             }
                         }
-                        drop(w);
                         (succs, outcomes, viols, known, store.take_local())
-                    })
-                    .unwrap();
-                hs.push(h);
+                    }));
+                    let r = r.map_err(|e| {
+                        e.downcast_ref::<String>().cloned().or_else(|| e.downcast_ref::<&str>().map(|s| s.to_string())).unwrap_or_else(|| "worker panicked".into())
+                    });
+                    if res_tx.send((t, r)).is_err() {
+                        break;
+                    }
+                }
+            })
+            .unwrap();
+    }
+    drop(res_tx);
+
+    for depth in 0..b.max_depth {
+        if frontier.is_empty() {
+            break;
+        }
+        let t_level = Instant::now();
+        // at least 8 nodes per worker
+        let nthreads = pool_size.min(frontier.len().div_ceil(8).max(1));
+        let chunk = frontier.len().div_ceil(nthreads);
+        let fr = std::sync::Arc::new(std::mem::take(&mut frontier));
+        let mut njobs = 0;
+        for ci in 0..nthreads {
+            let lo = ci * chunk;
+            let hi = ((ci + 1) * chunk).min(fr.len());
+            if lo >= hi {
+                break;
             }
-            hs.into_iter().map(|h| h.join().expect("worker panicked (machinery error)")).collect()
-        });
+            job_txs[ci].send(Job { frontier: fr.clone(), lo, hi }).expect("worker alive");
+            njobs += 1;
+        }
+        let mut got: Vec<(usize, Out<Sc::S, Sc::A>)> = vec![];
+        for _ in 0..njobs {
+            let (t, r) = res_rx.recv().expect("worker result");
+            match r {
+                Ok(o) => got.push((t, o)),
+                Err(m) => panic!("worker {t} panicked (machinery error): {m}"),
+            }
+        }
+        got.sort_by_key(|x| x.0);
+        let results: Vec<Out<Sc::S, Sc::A>> = got.into_iter().map(|x| x.1).collect();
+        let frontier_ref: &Vec<Node<Sc::S>> = &fr;
+        let mut visited_w = visited.write().unwrap();
+        let visited = &mut *visited_w;
 
         let t_expand = t_level.elapsed().as_secs_f64();
         let mut block_sets = vec![];
@@ -389,7 +439,7 @@ pub fn explore<Sc: Scenario>(scn: &Sc, b: &Bounds) -> Report {
             v
         };
         for (node_idx, _ai, a, faults, msg) in viols.into_iter().take(3) {
-            let node = &frontier[node_idx];
+            let node = &frontier_ref[node_idx];
             let mut path = path_of(&paths, node.path);
             path.push(PathStep { action: serde_json::to_value(&a).unwrap(), faults });
             rep.violations.push(ViolationReport {
@@ -401,7 +451,7 @@ pub fn explore<Sc: Scenario>(scn: &Sc, b: &Bounds) -> Report {
         }
         let mut next: Vec<Node<Sc::S>> = vec![];
         for s in all {
-            let parent = &frontier[s.parent_node];
+            let parent = &frontier_ref[s.parent_node];
             paths.push(PathRec { parent: parent.path, action: s.action, faults: s.faults });
             next.push(Node { s: s.s, path: paths.len() - 1, base: parent.base });
         }
@@ -419,6 +469,7 @@ pub fn explore<Sc: Scenario>(scn: &Sc, b: &Bounds) -> Report {
         for n in &next {
             leaf_paths.push((n.path, n.base));
         }
+        drop(visited_w);
         frontier = next;
         if !rep.violations.is_empty() {
             break;
@@ -440,6 +491,9 @@ pub fn explore<Sc: Scenario>(scn: &Sc, b: &Bounds) -> Report {
             break;
         }
     }
+    drop(job_txs);
+    });
+    let visited = visited.into_inner().unwrap();
     if std::env::var("MC_TIMING").is_ok() { eprintln!("  loop done at {:.2}s", t0.elapsed().as_secs_f64()); }
     rep.transitions = transitions.load(Ordering::Relaxed);
     rep.fault_transitions = fault_transitions.load(Ordering::Relaxed);
